@@ -390,6 +390,9 @@ func runBitflip(c *core.Ctx, codec string) {
 	// the guessed-format path (the sniffer reads the first MiB) and the forced-format path (the
 	// chunk reader does the first read itself)
 	tgs := []target{targets(codec)[0], {"obiconvert:file-forced-format", "obiconvert", []string{"--FORMAT"}, false, ""}}
+	if codec == "gzip" {
+		tgs = append(tgs, target{"obiconvert:stdin", "obiconvert", nil, true, ""}) // decoded by zlib inside the C reader
+	}
 	if fastq {
 		base = filepath.Join(c.Dir, fmt.Sprintf("b%d.fastq%s", c.Idx, gen.CodecExt(codec)))
 	}
@@ -432,7 +435,7 @@ func runBitflip(c *core.Ctx, codec string) {
 			region = "trailer"
 		}
 		for ti, t := range tgs {
-			if c.Quick() && ti != fi%2 {
+			if ti != fi%len(tgs) && (c.Quick() || region == "body") { // every target on the header and trailer bits in the thorough tier
 				continue
 			}
 			res := runCmd(c, t, base)
